@@ -303,6 +303,17 @@ var topRules = []topRule{
 	{name: "loop-result-after-block-return", good: "fn b(c: bool) -> int { if c { { return 1; }; } 2 }\nfn f(s: str) -> str { loop { return s; } }\nfn main() { println(b(true), f(\"x\")); }\n", bad: "fn b(c: bool) -> int { if c { { return 1; }; } 2 }\nfn f(s: str) -> str { loop { if s == \"\" { break; } return s; } }\nfn main() { println(b(true), f(\"x\")); }\n"},
 	{name: "loop-result-throw-inside", good: "fn f(c: bool) -> int { loop { if c { throw(\"x\"); } return 1; } }\nfn main() { println(f(false)); }\n", bad: "fn f(c: bool) -> int { loop { if c { break; } return 1; } }\nfn main() { println(f(false)); }\n"},
 	{name: "loop-result-in-lambda-break", good: "fn f() -> int { loop { let l = fn(n: int) -> int { let k = n; for i in 0..3 { if i > k { break; } } k }; return l(1); } }\nfn main() { println(f()); }\n", bad: "fn f(c: bool) -> int { loop { let l = fn(n: int) -> int { n }; if c { break; } return l(1); } }\nfn main() { println(f(true)); }\n"},
+	// branches behind a diverging first branch: the first arm / branch leaves the function, the remaining ones still
+	// have to agree with each other, and the construct as a whole does not diverge
+	{name: "match-arms-after-returning-arm", good: "fn f(n: int) -> int { match n { 0 => { return 0; }, 1 => 1, _ => 2 } }\nfn main() { println(f(1)); }\n", bad: "fn f(n: int) -> int { match n { 0 => { return 0; }, 1 => \"one\", _ => 2 } }\nfn main() { println(f(1)); }\n"},
+	{name: "match-arms-after-throwing-arm", good: "fn f(n: int) -> int { let v = match n { 0 => throw(\"x\"), 1 => 1, _ => 2 }; v }\nfn main() { println(f(1)); }\n", bad: "fn f(n: int) -> int { let v = match n { 0 => throw(\"x\"), 1 => true, _ => 2 }; v }\nfn main() { println(f(1)); }\n"},
+	{name: "match-arms-after-breaking-arm", good: "fn main() { for i in 0..3 { let v = match i { 0 => { break; }, 1 => 1.5, _ => 2.5 }; println(v); } }\n", bad: "fn main() { for i in 0..3 { let v = match i { 0 => { break; }, 1 => 1.5, _ => \"s\" }; println(v); } }\n"},
+	{name: "match-default-after-returning-arm", good: "fn f(n: int) -> str { match n { 0 => { return \"z\"; }, _ => \"d\" } }\nfn main() { println(f(1)); }\n", bad: "fn f(n: int) -> str { match n { 0 => { return \"z\"; }, _ => 7 } }\nfn main() { println(f(1)); }\n"},
+	{name: "match-stmt-with-returning-arm-falls-through", good: "fn f(n: int) -> int { match n { 0 => { return 0; }, _ => println(\"x\") }; 1 }\nfn main() { println(f(1)); }\n", bad: "fn f(n: int) -> int { match n { 0 => { return 0; }, _ => println(\"x\") }; }\nfn main() { println(f(1)); }\n"},
+	{name: "match-use-after-returning-arm", good: "fn f(n: int) -> int { let v = match n { 0 => { return 0; }, _ => 5 }; v + 1 }\nfn main() { println(f(1)); }\n", bad: "fn f(n: int) -> int { let v = match n { 0 => { return 0; }, _ => 5 }; v + \"s\" }\nfn main() { println(f(1)); }\n"},
+	{name: "if-branches-after-returning-branch", good: "fn f(n: int) -> int { if n == 0 { return 0; } else if n == 1 { 1 } else { 2 } }\nfn main() { println(f(1)); }\n", bad: "fn f(n: int) -> int { if n == 0 { return 0; } else if n == 1 { \"one\" } else { 2 } }\nfn main() { println(f(1)); }\n"},
+	{name: "if-use-after-returning-branch", good: "fn f(n: int) -> int { let v = if n == 0 { return 0; } else { 5 }; v + 1 }\nfn main() { println(f(1)); }\n", bad: "fn f(n: int) -> int { let v = if n == 0 { return 0; } else { 5 }; v + \"s\" }\nfn main() { println(f(1)); }\n"},
+	{name: "try-catch-after-returning-body", good: "fn f(n: int) -> int { let v = try { if n == 0 { return 0; } 3 } catch e { 4 }; v + 1 }\nfn main() { println(f(1)); }\n", bad: "fn f(n: int) -> int { let v = try { if n == 0 { return 0; } 3 } catch e { \"s\" }; v + 1 }\nfn main() { println(f(1)); }\n"},
 	// function types: a function value fits a function type when parameters agree by POSITION (name and type) and the
 	// result agrees; the bad twins differ in exactly one of those
 	{name: "fn-type-argument", good: "fn k(a: int, b: str) -> bool { b.len() > a }\nfn g(h: fn(a: int, b: str) -> bool) -> bool { h(1, \"s\") }\nfn main() { println(g(k)); }\n", bad: "fn k(a: str, b: str) -> bool { b.len() > a.len() }\nfn g(h: fn(a: int, b: str) -> bool) -> bool { h(1, \"s\") }\nfn main() { println(g(k)); }\n"},
